@@ -556,6 +556,7 @@ def run(tier):
         frontier.append((c.meta["kind"], [], d))
         seen.add((c.meta["kind"], d))
     states = len(seen)
+    first_frontier = list(frontier)
     for lvl in range(1, depth + 1):
         res = explore("%s-%s-level%d" % (PROP, tier, lvl), level_gen(frontier), check, chunk=150, deadline=deadline, collect=collect)
         total.merge(res)
@@ -581,6 +582,8 @@ def run(tier):
             total.parts.append({"part": "level3-frontier", "distinct_states_level2": len(frontier), "expanded": len(lim)})
             frontier = lim
     total.merge(explore("%s-%s-decls" % (PROP, tier), decl_gen(tier), check, chunk=50, deadline=deadline))
+    from ..core import explore_gcc
+    total.merge(explore_gcc("%s-%s-level1" % (PROP, tier), level_gen(first_frontier), check, chunk=150, deadline=deadline))
     total.merge(explore("%s-%s-forall" % (PROP, tier), forall_gen(tier), check, chunk=50, deadline=deadline))
     rule = ("breadth-first search to depth %d over operation histories on 7 table kinds (integer, decimal, string, bytes, boolean, tuple, 2-dim), string, "
             "bytes and a 5-item tuple; alphabet: at/put/insert/delete/concat/count/set@/@ with positions {null,-1,0,1,n-1,n,n+1,2^32,MAX}, ranks "
